@@ -296,6 +296,10 @@ class DataMixin:
                 d = h.attrs.get('__dictdata__')
                 if d is not None:
                     return self.setitem(d, idx, value, node)
+        if type(obj).__name__ == 'VDictView' and isinstance(idx, VStr):
+            # obj.__dict__[name] = value is an attribute store on the object itself
+            ex.heap[obj.ref.addr].attrs[idx.s] = value
+            return
         if isinstance(obj, VTuple) or isinstance(obj, VSeq):
             self.throw('TypeError', "'tuple' object does not support item assignment")
         m = self.method_model(obj, '__setitem__')
@@ -366,6 +370,12 @@ class DataMixin:
                 i = self.concrete_index(idx, len(h.items), node)
                 del h.items[i]
                 return
+        if type(obj).__name__ == 'VDictView' and isinstance(idx, VStr):
+            attrs = ex.heap[obj.ref.addr].attrs
+            if idx.s not in attrs:
+                raise PyRaise(self.mkexc('KeyError', idx.s))
+            del attrs[idx.s]
+            return
         raise Undecided(f'del item on {obj!r}')
 
     def symdict_remove(self, h, k):
